@@ -40,7 +40,7 @@ WHERES = (["entry"] + [f"{t}@{k}" for t in ("fun", "jac") for k in (1, 2, 3)] + 
 META = dict(
     rule="one case = (model, where, exception class, method); fault_enumeration over the full product; the post-fault argument equivalence is a z3 validity query over x and the symbolic data",
     bounds={
-        "quick": "3 models (NLP with two constraints, unconstrained NLP, LP) x 20 fault locations x 4 exception classes x 5 methods; callbacks k <= 3",
+        "quick": "4 models (NLP with two constraints, unconstrained NLP maximise, LP minimise, LP maximise) x 20 fault locations x 4 exception classes x 5 methods; callbacks k <= 3",
         "thorough": "same product (finite, fully enumerated in both tiers) plus the real-SciPy validation of the stub",
     },
     outside=["faults that corrupt memory or kill the interpreter", "asynchronous signals delivered between two bytecodes of the restore sequence itself", "rounding (S7)"],
@@ -63,6 +63,8 @@ def models():
              cons=[("ge", ("bin", "+", X, Y), ("num", S("r0"))), ("le", ("bin", "*", X, Y), ("num", S("r1")))], bounds={"x": (S("lx"), S("ux"))}),
         dict(tag="nlp0", obj=("bin", "+", sq(X), sq(("bin", "-", Y, ("num", S("c1"))))), sense="max", cons=[], bounds={"y": (0.0, None)}),
         dict(tag="lp", obj=("bin", "+", ("bin", "*", ("const", S("c1")), X), Y), sense="min", cons=[("ge", ("bin", "+", X, Y), ("num", S("r0")))], bounds={"x": (0.0, S("ux")), "y": (0.0, None)}),
+        dict(tag="lp-max", obj=("bin", "+", ("bin", "+", ("bin", "*", ("const", S("c1")), X), Y), ("num", S("c0"))), sense="max",
+             cons=[("le", ("bin", "+", X, Y), ("num", S("r0"))), ("eq", ("bin", "-", X, Y), ("num", S("r1")))], bounds={"x": (0.0, S("ux")), "y": (0.0, None)}),
     ]
 
 
@@ -335,6 +337,13 @@ def replay(payload):
     (ma, la, ea), (mb, lb, eb) = a, bb
     if type(ea) is not type(eb) or len(ma) != len(mb) or len(la) != len(lb):
         return True, f"next solve differs from an untouched copy: {ea!r}/{len(ma)}/{len(la)} vs {eb!r}/{len(mb)}/{len(lb)}"
+    for ca, cb in zip(la, lb):
+        for key in ("c", "A_ub", "b_ub", "A_eq", "b_eq"):
+            u, v = ca.get(key), cb.get(key)
+            if (u is None) != (v is None) or (u is not None and not np.allclose(np.asarray(u, dtype=float), np.asarray(v, dtype=float), rtol=0, atol=1e-12)):
+                return True, f"after {exc_name} at {where} ({method}) the next solve passes {key} = {None if u is None else np.asarray(u, dtype=float).tolist()}, an untouched copy passes {None if v is None else np.asarray(v, dtype=float).tolist()}"
+        if ca.get("bounds") != cb.get("bounds") or ca.get("method") != cb.get("method"):
+            return True, f"after {exc_name} at {where} ({method}) the next solve passes other bounds / method than an untouched copy"
     for ca, cb in zip(ma, mb):
         x = np.array([0.4 + 0.3 * i for i in range(len(ca["x0"]))])
         if ca["method"] != cb["method"] or not K.close(float(ca["fun"](x)), float(cb["fun"](x)), 1e-9, 1e-12) or (ca["hess"] is None) != (cb["hess"] is None):
